@@ -76,6 +76,7 @@ TD15_QUICK = [('tdigest.rs', 'c15_td_endpoints_1', 'bounded(1 centroid; weights 
               ('tdigest.rs', 'c15_td_cdf_shape_1', 'bounded(1 centroid; x on j/8)'),
               ('tdigest.rs', 'c15_td_consistent_1', 'bounded(1 centroid, strict knots)'),
               ('tdigest.rs', 'c15_td_concrete_weighted_grid_q', 'bounded(ONE concrete 3-centroid digest with unequal outer weights; q on j/104): range, monotonicity, cdf(quantile(q)) = q in both tails'),
+              ('tdigest.rs', 'c15_td_merge_three_concrete_sorted', 'bounded(ONE concrete merge: centroid 5, backlog 6, 1; non-fusing scale function): three entries come out sorted'),
               ('tdigest.rs', 'c15_td_first_read_tails', 'bounded(one concrete insert still in the backlog): cdf tails / quantile end points / repeated reads as FIRST read through the public wrapper')]
 TD15_THOROUGH = [('tdigest.rs', 'c15_td_endpoints_3', 'bounded(3 centroids)'),
                  ('tdigest.rs', 'c15_td_quantile_shape_1', 'bounded(1 centroid; q on j/32)'),
@@ -93,7 +94,8 @@ TD16_QUICK = [('tdigest.rs', 'c16_td_insert_weighted_inner', 'complete: all fini
               ('tdigest.rs', 'c16_td_repeated_value_weighted', 'bounded(two concrete weighted inserts of one value, no read in between)'),
               ('tdigest.rs', 'c19_td_clear_is_fresh', 'bounded(2 centroids + 1 backlog entry): clear() empties the digest'),
               ('tdigest.rs', 'c15_td_empty', 'complete: empty digest')]
-TD16_MERGE = [('tdigest.rs', 'c16_td_merge_1_1', 'bounded(1 centroid + 1 backlog entry; adversarial scale function)')]
+TD16_MERGE = [('tdigest.rs', 'c16_td_merge_1_1', 'bounded(1 centroid + 1 backlog entry; adversarial scale function)'),
+              ('tdigest.rs', 'c15_td_merge_three_concrete_sorted', 'bounded(ONE concrete merge of three entries; non-fusing scale function)')]
 TD16_THOROUGH = []
 TD19 = [('tdigest.rs', 'c19_td_clear_is_fresh', 'bounded(2 centroids + 1 backlog entry)')]
 
